@@ -49,6 +49,30 @@ structure WFd (dt : Data) (s : Store) : Prop where
   /-- the virtual root's vector is current whenever there is a clone -/
   rootOK : s.forest.isNil = false → s.rootR = recompRoot dt s.forest
 
+/-- Payload-order normalisation: the payload's data-point *set* (a Python `set`, a list in the model)
+is listed in the order of the clone's `_data` entry — the order in which `from_dict` re-adds it with
+`add_data_point_list`.  Every edit of the model appends to / erases from both lists alike. -/
+def Aligned (s : Store) : Prop := ∀ n ∈ s.forest.recs, n.dps = s.dataOf n.name
+
+def alignedB (s : Store) : Bool := s.forest.recs.all fun n => n.dps == s.dataOf n.name
+
+def fullB (s : Store) : Bool := s.forest.recs.all fun n => alHas s.data n.name
+
+/-- a sufficient executable test for C07's `WF` (`Proofs/StoreInv.lean`; soundness: `wf_of_wfShB`) -/
+def wfShB (s : Store) : Bool :=
+  let rs := s.forest.recs
+  nodupB (rs.map (·.name)) && nodupB (rs.map (·.idx)) && rs.all (fun n => n.idx != 0) &&
+  rs.all (fun n => decide (0 ≤ n.name)) &&
+  nodupB (s.nodeIdx.map (·.1)) && nodupB (s.nodeIdxRev.map (·.1)) &&
+  s.nodeIdx.all (fun e => rs.any (fun n => n.name == e.1 && n.idx == e.2)) &&
+  rs.all (fun n => s.nodeIdx.contains (n.name, n.idx)) &&
+  s.nodeIdxRev.all (fun e => rs.any (fun n => n.name == e.2 && n.idx == e.1)) &&
+  rs.all (fun n => s.nodeIdxRev.contains (n.idx, n.name)) &&
+  nodupB (s.data.map (·.1)) &&
+  s.data.all (fun e => e.1 == outKey || (rs.map (·.name)).contains e.1) &&
+  rs.all (fun n => n.dps.isPerm (s.dataOf n.name)) &&
+  nodupB (s.data.flatMap (·.2))
+
 /-- executable form of `WFd` -/
 def wfdB (dt : Data) (s : Store) : Bool :=
   let rs := s.forest.recs
